@@ -319,134 +319,6 @@ theorem parseKey_take (raw : Bytes) (k : Key) (n : Nat) (hk : parseKey raw = .ok
     slice_take _ _ 36 4 (by omega), slice_take _ _ 40 16 (by omega), slice_take _ _ 64 _ (by omega),
     slice_take _ _ (64 + fromLE (slice raw 56 4) / 8) _ (by omega)]
 
-/-- `img'` differs from `img` at most inside `[w, W)` -/
-def Unch (w W : Nat) (img img' : Bytes) : Prop :=
-  img'.length = img.length ∧ ∀ i, (i < w ∨ W ≤ i) → img'[i]? = img[i]?
-
-theorem Unch.refl (w W : Nat) (img : Bytes) : Unch w W img img := ⟨rfl, fun _ _ => rfl⟩
-
-theorem slice_unch {w W : Nat} {img img' : Bytes} (h : Unch w W img img') (o n : Nat)
-    (hd : o + n ≤ w ∨ W ≤ o) : slice img' o n = slice img o n := by
-  apply List.ext_getElem?
-  intro i
-  simp only [slice, List.getElem?_take, List.getElem?_drop]
-  split
-  · exact h.2 (o + i) (by omega)
-  · rfl
-
-theorem slice_len_le (b : Bytes) (o n : Nat) : (slice b o n).length ≤ n := by
-  simp [slice]; omega
-
-theorem append_buf (a : Acc) (x : Bytes) : (a.append x).buf = a.buf ++ x := by
-  unfold Acc.append
-  split
-  · split <;> rfl
-  · rfl
-
-theorem append_alias (a : Acc) (x : Bytes) (e' : Nat) (h : (a.append x).alias = some e') :
-    ∃ e, a.alias = some e ∧ e' = e + x.length := by
-  unfold Acc.append at h
-  split at h
-  · rename_i e he
-    split at h
-    · cases h; exact ⟨e, he, rfl⟩
-    · cases h
-  · rename_i he; rw [he] at h; cases h
-
-theorem append_unch (w W : Nat) (img : Bytes) (a : Acc) (x : Bytes) (h : Unch w W img a.img)
-    (ha : ∀ e, a.alias = some e → w ≤ e ∧ e + x.length ≤ W) : Unch w W img (a.append x).img := by
-  unfold Acc.append
-  split
-  · rename_i e he
-    obtain ⟨h1, h2⟩ := ha e he
-    split
-    · rename_i hfit
-      refine ⟨by rw [splice_length _ _ _ hfit]; exact h.1, ?_⟩
-      intro i hi
-      simp only
-      rcases hi with hi | hi
-      · rw [splice_getElem?_lt _ _ _ _ (by omega) hfit]; exact h.2 i (Or.inl hi)
-      · rw [splice_getElem?_ge _ _ _ _ (by omega) hfit]; exact h.2 i (Or.inr hi)
-    · exact h
-  · exact h
-
-/-- what `ValidateRTM` is meant to check: volume ‖ [level-1 directory] ‖ directory of the level -/
-def rtmSigned (img : Bytes) (level : Nat) (rtm dir1 dirL : Nat × Nat) : Bytes :=
-  slice img rtm.1 rtm.2 ++ (if level = 2 then slice img dir1.1 dir1.2 else []) ++ slice img dirL.1 dirL.2
-
-/-- the window the in-place appends may overwrite, `[end of volume, + length of the directories)`,
-    is disjoint from the signature entry and from the directory that is read after the first append -/
-def NoAlias (level : Nat) (rtm sig dir1 dirL : Nat × Nat) : Prop :=
-  (sig.1 + sig.2 ≤ rtm.1 + rtm.2 ∨ rtm.1 + rtm.2 + ((if level = 2 then dir1.2 else 0) + dirL.2) ≤ sig.1) ∧
-  (dirL.1 + dirL.2 ≤ rtm.1 + rtm.2 ∨ rtm.1 + rtm.2 + ((if level = 2 then dir1.2 else 0) + dirL.2) ≤ dirL.1)
-
-theorem validateRTM_noalias (P : Prims) (img : Bytes) (level : Nat) (rtm sig dir1 dirL : Nat × Nat) (oem : Key)
-    (hna : NoAlias level rtm sig dir1 dirL) (v : Except Err Unit) (img' : Bytes)
-    (h : validateRTM P img level rtm sig dir1 dirL oem = some (v, img')) :
-    v = newSignedBlob P (slice img sig.1 sig.2).reverse (rtmSigned img level rtm dir1 dirL) oem := by
-  unfold validateRTM at h
-  split at h
-  · cases h
-  split at h
-  · cases h
-  split at h
-  · cases h
-  let w := rtm.1 + rtm.2
-  let W := w + ((if level = 2 then dir1.2 else 0) + dirL.2)
-  let a0 : Acc := { img := img, buf := slice img rtm.1 rtm.2, alias := some w }
-  have u0 : Unch w W img a0.img := Unch.refl _ _ _
-  have hxL := slice_len_le img dirL.1 dirL.2
-  by_cases hl : level = 2
-  · simp only [hl, if_true] at h
-    split at h
-    · cases h
-    have hW : W = w + (dir1.2 + dirL.2) := by simp [W, hl]
-    have hx1 := slice_len_le img dir1.1 dir1.2
-    have u1 : Unch w W img (a0.append (slice img dir1.1 dir1.2)).img :=
-      append_unch w W img a0 _ u0 (by
-        intro e he
-        have : e = w := by simpa [a0] using he.symm
-        omega)
-    have hdL : slice (a0.append (slice img dir1.1 dir1.2)).img dirL.1 dirL.2 = slice img dirL.1 dirL.2 :=
-      slice_unch u1 _ _ (by
-        have := hna.2; simp only [hl, if_true] at this; omega)
-    have u2 : Unch w W img ((a0.append (slice img dir1.1 dir1.2)).append (slice img dirL.1 dirL.2)).img :=
-      append_unch w W img _ _ u1 (by
-        intro e he
-        obtain ⟨e0, he0, rfl⟩ := append_alias a0 _ e he
-        have : e0 = w := by simpa [a0] using he0.symm
-        omega)
-    have hsig : slice ((a0.append (slice img dir1.1 dir1.2)).append (slice img dirL.1 dirL.2)).img sig.1 sig.2
-        = slice img sig.1 sig.2 :=
-      slice_unch u2 _ _ (by
-        have := hna.1; simp only [hl, if_true] at this; omega)
-    have hf : rtmFinish P (a0.append (slice img dir1.1 dir1.2)) sig dirL oem = (v, img') := by
-      simpa [a0, w] using h
-    unfold rtmFinish at hf
-    rw [hdL, hsig, append_buf, append_buf] at hf
-    have := congrArg Prod.fst hf
-    simp only at this
-    rw [← this]
-    simp [rtmSigned, hl, a0]
-  · simp only [hl, if_false] at h
-    have hW : W = w + dirL.2 := by simp [W, hl]
-    have u2 : Unch w W img (a0.append (slice img dirL.1 dirL.2)).img :=
-      append_unch w W img a0 _ u0 (by
-        intro e he
-        have : e = w := by simpa [a0] using he.symm
-        omega)
-    have hsig : slice (a0.append (slice img dirL.1 dirL.2)).img sig.1 sig.2 = slice img sig.1 sig.2 :=
-      slice_unch u2 _ _ (by
-        have := hna.1; simp only [hl, if_false] at this; omega)
-    have hf : rtmFinish P a0 sig dirL oem = (v, img') := by
-      simpa [a0, w] using h
-    unfold rtmFinish at hf
-    rw [show a0.img = img from rfl, hsig, append_buf] at hf
-    have := congrArg Prod.fst hf
-    simp only at this
-    rw [← this]
-    simp [rtmSigned, hl, a0]
-
 theorem parseDBKey_consumed (b : Bytes) (k : Key) (n : Nat) (h : parseDBKey b = .ok (k, n)) :
     80 ≤ n ∧ n ≤ b.length := by
   unfold parseDBKey at h
@@ -504,58 +376,108 @@ theorem parseKeyDatabase_never_out_of_fuel (db : Bytes) (ks : KeySet) (fuel : Na
   · rw [dbLoop_fuel (db.length + 1) _ _ (by simp; omega), dbLoop_fuel fuel _ _ (by simp; omega)]
 
 
-/-- boundary checks of `ValidateRTM`: a function of the image length only -/
-def rtmBounds (len level : Nat) (rtm sig dir1 dirL : Nat × Nat) : Bool :=
-  checkBoundaries rtm.1 ((rtm.1 + rtm.2) % 2 ^ 64) len && checkBoundaries sig.1 ((sig.1 + sig.2) % 2 ^ 64) len &&
-  checkBoundaries dirL.1 ((dirL.1 + dirL.2) % 2 ^ 64) len &&
-  (level != 2 || checkBoundaries dir1.1 ((dir1.1 + dir1.2) % 2 ^ 64) len)
+/-! ### ValidateRTM (repaired: the volume is copied before the directories are appended) -/
 
 theorem validateRTM_none_iff (P : Prims) (img : Bytes) (level : Nat) (rtm sig dir1 dirL : Nat × Nat) (oem : Key) :
     validateRTM P img level rtm sig dir1 dirL oem = none ↔ rtmBounds img.length level rtm sig dir1 dirL = false := by
-  unfold validateRTM rtmBounds
-  cases h1 : checkBoundaries rtm.1 ((rtm.1 + rtm.2) % 2 ^ 64) img.length <;>
-  cases h2 : checkBoundaries sig.1 ((sig.1 + sig.2) % 2 ^ 64) img.length <;>
-  cases h3 : checkBoundaries dirL.1 ((dirL.1 + dirL.2) % 2 ^ 64) img.length <;>
-  cases h4 : checkBoundaries dir1.1 ((dir1.1 + dir1.2) % 2 ^ 64) img.length <;>
-  by_cases hl : level = 2 <;> simp [hl]
+  unfold validateRTM
+  split
+  · rename_i h; simp [h]
+  · rename_i h; simp [h]
 
-/-- the positions the verdict of `ValidateRTM` is meant to depend on -/
+/-- the verdict is `NewSignedBlob` over exactly volume ‖ [level-1 directory] ‖ directory with the
+    (reversed) signature entry, and the image is left as it was -/
+theorem validateRTM_some (P : Prims) (img : Bytes) (level : Nat) (rtm sig dir1 dirL : Nat × Nat) (oem : Key)
+    (v : Except Err Unit) (img' : Bytes) (h : validateRTM P img level rtm sig dir1 dirL oem = some (v, img')) :
+    v = newSignedBlob P (slice img sig.1 sig.2).reverse (rtmSigned img level rtm dir1 dirL) oem ∧ img' = img := by
+  unfold validateRTM at h
+  split at h
+  · cases h
+  · cases h; exact ⟨rfl, rfl⟩
+
+/-- the positions the verdict of `ValidateRTM` depends on -/
 def rtmCovered (level : Nat) (rtm sig dir1 dirL : Nat × Nat) (i : Nat) : Prop :=
   (rtm.1 ≤ i ∧ i < rtm.1 + rtm.2) ∨ (sig.1 ≤ i ∧ i < sig.1 + sig.2) ∨ (dirL.1 ≤ i ∧ i < dirL.1 + dirL.2) ∨
   (level = 2 ∧ dir1.1 ≤ i ∧ i < dir1.1 + dir1.2)
 
+theorem rtmSigned_agree {level : Nat} {rtm sig dir1 dirL : Nat × Nat} {img img' : Bytes}
+    (h : AgreeOn (rtmCovered level rtm sig dir1 dirL) img img') :
+    rtmSigned img level rtm dir1 dirL = rtmSigned img' level rtm dir1 dirL := by
+  unfold rtmSigned
+  rw [slice_agree h rtm.1 rtm.2 (fun i a b => Or.inl ⟨a, b⟩),
+    slice_agree h dirL.1 dirL.2 (fun i a b => Or.inr (Or.inr (Or.inl ⟨a, b⟩)))]
+  by_cases hl : level = 2
+  · simp only [hl, if_true]
+    rw [slice_agree h dir1.1 dir1.2 (fun i a b => Or.inr (Or.inr (Or.inr ⟨hl, a, b⟩)))]
+  · simp only [hl, if_false]
+
 theorem validateRTM_agree (P : Prims) (img img' : Bytes) (level : Nat) (rtm sig dir1 dirL : Nat × Nat) (oem : Key)
-    (hna : NoAlias level rtm sig dir1 dirL) (h : AgreeOn (rtmCovered level rtm sig dir1 dirL) img img') :
+    (h : AgreeOn (rtmCovered level rtm sig dir1 dirL) img img') :
     (validateRTM P img level rtm sig dir1 dirL oem).map Prod.fst =
     (validateRTM P img' level rtm sig dir1 dirL oem).map Prod.fst := by
-  have hs : rtmSigned img level rtm dir1 dirL = rtmSigned img' level rtm dir1 dirL := by
-    unfold rtmSigned
-    rw [slice_agree h rtm.1 rtm.2 (fun i a b => Or.inl ⟨a, b⟩),
-      slice_agree h dirL.1 dirL.2 (fun i a b => Or.inr (Or.inr (Or.inl ⟨a, b⟩)))]
-    by_cases hl : level = 2
-    · simp only [hl, if_true]
-      rw [slice_agree h dir1.1 dir1.2 (fun i a b => Or.inr (Or.inr (Or.inr ⟨hl, a, b⟩)))]
-    · simp only [hl, if_false]
+  have hs := rtmSigned_agree h
   have hg : slice img sig.1 sig.2 = slice img' sig.1 sig.2 :=
     slice_agree h sig.1 sig.2 (fun i a b => Or.inr (Or.inl ⟨a, b⟩))
-  cases h1 : validateRTM P img level rtm sig dir1 dirL oem with
-  | none =>
-    have := (validateRTM_none_iff P img level rtm sig dir1 dirL oem).mp h1
-    rw [h.1] at this
-    rw [(validateRTM_none_iff P img' level rtm sig dir1 dirL oem).mpr this]
-  | some r1 =>
-    cases h2 : validateRTM P img' level rtm sig dir1 dirL oem with
-    | none =>
-      have := (validateRTM_none_iff P img' level rtm sig dir1 dirL oem).mp h2
-      rw [← h.1] at this
-      rw [(validateRTM_none_iff P img level rtm sig dir1 dirL oem).mpr this] at h1
-      cases h1
-    | some r2 =>
-      obtain ⟨v1, i1⟩ := r1
-      obtain ⟨v2, i2⟩ := r2
-      have e1 := validateRTM_noalias P img level rtm sig dir1 dirL oem hna v1 i1 h1
-      have e2 := validateRTM_noalias P img' level rtm sig dir1 dirL oem hna v2 i2 h2
-      simp only [Option.map_some]
-      rw [e1, e2, hs, hg]
+  unfold validateRTM
+  rw [← h.1, hs, hg]
+  split <;> rfl
+
+/-- a slice that lies inside `img` is not changed by bytes appended to `img` -/
+theorem slice_append_of_le (img pad : Bytes) (o l : Nat) (h : o + l ≤ img.length) :
+    slice (img ++ pad) o l = slice img o l := by
+  apply List.ext_getElem?
+  intro i
+  simp only [slice, List.getElem?_take, List.getElem?_drop]
+  split
+  · rw [List.getElem?_append_left (by omega)]
+  · rfl
+
+/-- offsets and sizes are uint64 values in the Go code -/
+def Fits64 (r : Nat × Nat) : Prop := r.1 < 2 ^ 64 ∧ r.2 < 2 ^ 64
+
+/-- for uint64 operands the wrapped check `checkBoundaries(start, start + length, blob)` accepts
+    exactly the ranges that lie in the blob (a wrapped end is below the start) -/
+theorem checkBoundaries_range {r : Nat × Nat} {len : Nat} (hf : Fits64 r) (hlen : len < 2 ^ 64) :
+    checkBoundaries r.1 ((r.1 + r.2) % 2 ^ 64) len = true ↔ r.1 + r.2 ≤ len := by
+  rw [checkBoundaries_iff]
+  obtain ⟨h1, h2⟩ := hf
+  have e : (2 : Nat) ^ 64 = 18446744073709551616 := by decide
+  rw [e] at h1 h2 hlen ⊢
+  constructor
+  · intro h; omega
+  · intro h; omega
+
+theorem rtmBounds_iff {len level : Nat} {rtm sig dir1 dirL : Nat × Nat}
+    (h1 : Fits64 rtm) (h2 : Fits64 sig) (h3 : Fits64 dir1) (h4 : Fits64 dirL) (hlen : len < 2 ^ 64) :
+    rtmBounds len level rtm sig dir1 dirL = true ↔
+      rtm.1 + rtm.2 ≤ len ∧ sig.1 + sig.2 ≤ len ∧ dirL.1 + dirL.2 ≤ len ∧ (level = 2 → dir1.1 + dir1.2 ≤ len) := by
+  unfold rtmBounds
+  simp only [Bool.and_eq_true, Bool.or_eq_true, bne_iff_ne, ne_eq]
+  rw [checkBoundaries_range h1 hlen, checkBoundaries_range h2 hlen, checkBoundaries_range h3 hlen,
+    checkBoundaries_range h4 hlen]
+  by_cases hl : level = 2
+  · simp [hl, and_assoc]
+  · simp [hl, and_assoc]
+
+/-- **the image length has no influence**: bytes appended to an image in which all four ranges lie
+    change neither the boundary checks nor the verdict -/
+theorem validateRTM_pad (P : Prims) (img pad : Bytes) (level : Nat) (rtm sig dir1 dirL : Nat × Nat) (oem : Key)
+    (h1 : Fits64 rtm) (h2 : Fits64 sig) (h3 : Fits64 dir1) (h4 : Fits64 dirL)
+    (hlen : (img ++ pad).length < 2 ^ 64) (hb : rtmBounds img.length level rtm sig dir1 dirL = true) :
+    (validateRTM P (img ++ pad) level rtm sig dir1 dirL oem).map Prod.fst =
+    (validateRTM P img level rtm sig dir1 dirL oem).map Prod.fst := by
+  have hlen0 : img.length < 2 ^ 64 := by rw [List.length_append] at hlen; omega
+  obtain ⟨b1, b2, b3, b4⟩ := (rtmBounds_iff h1 h2 h3 h4 hlen0).mp hb
+  have hb' : rtmBounds (img ++ pad).length level rtm sig dir1 dirL = true := by
+    rw [rtmBounds_iff h1 h2 h3 h4 hlen, List.length_append]
+    exact ⟨by omega, by omega, by omega, fun hl => by have := b4 hl; omega⟩
+  unfold validateRTM
+  rw [hb, hb']
+  simp only [Bool.true_eq_false, if_false, Option.map_some]
+  unfold rtmSigned
+  rw [slice_append_of_le _ _ _ _ b1, slice_append_of_le _ _ _ _ b2, slice_append_of_le _ _ _ _ b3]
+  by_cases hl : level = 2
+  · simp only [hl, if_true]; rw [slice_append_of_le _ _ _ _ (b4 hl)]
+  · simp only [hl, if_false]
 
 end Fiano.Crypto.Psb
